@@ -218,7 +218,7 @@ def parseFile (h : Hooks) : Nat → Bytes → St → Except Err (Option File × 
 def parseFiles (h : Hooks) : Nat → Bytes → Nat → Nat → Nat → St → Except Err (List File × Nat × St)
   | 0, _, _, _, _, _ => .error .fuel
   | fuel+1, data, offset, lh, length, st =>
-    if offset < lh then
+    if offset ≤ lh then
       let offset := align8 offset
       if data.length ≤ offset then .error .err else
       match parseFile h fuel (data.drop offset) st with
